@@ -388,7 +388,7 @@ def match_filter(s, x, flt):
         return v['id'] == flt['id']
     if flt['kind'] == 'name':
         return dict(v['attrs']).get('name') == repr(flt['name'])
-    if flt['kind'] == 'all':
+    if flt['kind'] in ('all', 'none'):
         return True
     raise KeyError(flt['kind'])
 
@@ -612,6 +612,8 @@ def _flt_args(u, flt):
         return (), {'id': flt['id']}
     if flt['kind'] == 'name':
         return (), {'name': flt['name']}
+    if flt['kind'] == 'none':
+        return (), {}                     # no filter at all: everything matches
     if flt['kind'] == 'all':
         return (lambda t: True,), {}
     if flt['kind'] == 'int':
